@@ -79,3 +79,54 @@ package parallel
 //@        && result.Terminated == cntState(indexes, len(indexes), execution.IndexNotCreated) + cntState(indexes, len(indexes), execution.IndexRetryBackoff) + cntState(indexes, len(indexes), execution.IndexTerminated)
 //@        && result.Created == cntState(indexes, len(indexes), execution.IndexRetryBackoff) + cntState(indexes, len(indexes), execution.IndexStarting) + cntState(indexes, len(indexes), execution.IndexRunning) + cntState(indexes, len(indexes), execution.IndexTerminated)
 //@        && result.Succeeded == cntResult(indexes, len(indexes), execution.TaskSucceeded) && result.Failed == cntResult(indexes, len(indexes), execution.TaskFailed)
+
+// ---- whole-Job parallel status ------------------------------------------------------------------------------------------------
+// Per-index views over the Job's complete task list, filtered by the index hash.
+//@ pure hashT(t execution.TaskRef) string = t.ParallelIndex != nil ? hashOf(*t.ParallelIndex) : hashIdx(true, 0, "", nil)
+//@ pure succI(ts []execution.TaskRef, h string) bool = exists k int :: 0 <= k && k < len(ts) && hashT(ts[k]) == h && succeededTask(ts[k])
+//@ pure allFinI(ts []execution.TaskRef, h string) bool = forall k int :: 0 <= k && k < len(ts) && hashT(ts[k]) == h ==> finished(ts[k])
+//@ pure anyRunI(ts []execution.TaskRef, h string) bool = exists k int :: 0 <= k && k < len(ts) && hashT(ts[k]) == h && running(ts[k])
+//@ pure hasI(ts []execution.TaskRef, h string) bool = exists k int :: 0 <= k && k < len(ts) && hashT(ts[k]) == h
+//@ pure finCountI(ts []execution.TaskRef, h string, n int) Int = n <= 0 ? 0 : finCountI(ts, h, n - 1) + ((hashT(ts[n - 1]) == h && finished(ts[n - 1])) ? 1 : 0)
+//@ pure exhaustedI(ts []execution.TaskRef, h string, maxAttempts int64) bool = !succI(ts, h) && finCountI(ts, h, len(ts)) >= maxAttempts
+
+// number of parallel indexes of a spec and the hash of the i-th one (defined by GenerateIndexes / HashIndex; see C14)
+//@ pure numIdx(spec *execution.ParallelismSpec) Int
+//@ pure idxHash(spec *execution.ParallelismSpec, i Int) string
+//@ axiom at-least-zero-indexes: forall spec *execution.ParallelismSpec :: numIdx(spec) >= 0
+//@ pure specOf(job *execution.Job) *execution.ParallelismSpec = job.Spec.Template != nil ? job.Spec.Template.Parallelism : nil
+//@ pure strategyAll(job *execution.Job) bool = specOf(job) == nil || specOf(job).CompletionStrategy == "" || specOf(job).CompletionStrategy == execution.AllSuccessful
+//@ pure strategyAny(job *execution.Job) bool = specOf(job) != nil && specOf(job).CompletionStrategy == execution.AnySuccessful
+
+// the completion strategy is satisfied / can no longer be satisfied (the property's own words)
+//@ pure satisfied(job *execution.Job, ts []execution.TaskRef) bool =
+//@     strategyAll(job) ? (forall i int :: 0 <= i && i < numIdx(specOf(job)) ==> succI(ts, idxHash(specOf(job), i)))
+//@                      : (strategyAny(job) && (exists i int :: 0 <= i && i < numIdx(specOf(job)) && succI(ts, idxHash(specOf(job), i))))
+//@ pure impossible(job *execution.Job, ts []execution.TaskRef) bool =
+//@     strategyAll(job) ? (exists i int :: 0 <= i && i < numIdx(specOf(job)) && exhaustedI(ts, idxHash(specOf(job), i), job.GetMaxAttempts()))
+//@                      : (strategyAny(job) && (forall i int :: 0 <= i && i < numIdx(specOf(job)) ==> exhaustedI(ts, idxHash(specOf(job), i), job.GetMaxAttempts())))
+
+// TEMPORARILY ASSUMED (group-by over hash-keyed maps; see DESIGN.md): the status of index i is getIndexStatus applied to
+// exactly the tasks whose hash is that index's hash
+//@ extern func GenerateIndexes
+//@   params spec
+//@   ensures len(result) == numIdx(spec)
+
+//@ extern func GetParallelStatus
+//@   params job, tasks
+//@   ensures result1 == nil ==> len(result0.Indexes) == numIdx(specOf(job))
+//@   ensures result1 == nil ==> (forall i int :: {result0.Indexes[i]} {idxHash(specOf(job), i)} 0 <= i && i < numIdx(specOf(job)) ==> (let h = idxHash(specOf(job), i) in
+//@        result0.Indexes[i].Hash == h
+//@        && result0.Indexes[i].Result == (succI(tasks, h) ? execution.TaskSucceeded : (exhaustedI(tasks, h, job.GetMaxAttempts()) ? execution.TaskFailed : ""))
+//@        && result0.Indexes[i].State == (!hasI(tasks, h) ? execution.IndexNotCreated
+//@             : (allFinI(tasks, h) ? ((!succI(tasks, h) && !exhaustedI(tasks, h, job.GetMaxAttempts())) ? execution.IndexRetryBackoff : execution.IndexTerminated)
+//@             : (anyRunI(tasks, h) ? execution.IndexRunning : execution.IndexStarting)))))
+//@   ensures result1 == nil ==> result0.Complete == (satisfied(job, tasks) || impossible(job, tasks))
+//@   ensures result1 == nil && result0.Complete ==> result0.Successful != nil && *result0.Successful == satisfied(job, tasks)
+//@   ensures result1 == nil && !result0.Complete ==> result0.Successful == nil
+
+//@ extern func GetParallelTaskSummary
+//@   params job, tasks
+//@   ensures result1 == nil ==> result0.Complete == (satisfied(job, tasks) || impossible(job, tasks))
+//@   ensures result1 == nil && result0.Complete ==> result0.Successful != nil && *result0.Successful == satisfied(job, tasks)
+//@   ensures result1 == nil && !result0.Complete ==> result0.Successful == nil
